@@ -1,7 +1,7 @@
 """C10 - outputs are a function of the inputs only; no memory errors on valid input."""
 import json
 
-MATS = ["1x1", "diag2", "diag3", "tridiag3", "disconnected5", "positive_offdiag4", "mixed_sign5", "poisson8x7", "poisson30x1"]
+MATS = ["1x1", "diag2", "diag3", "tridiag3", "disconnected5", "positive_offdiag4", "mixed_sign5", "two_hubs8", "oneway12", "nonsym20", "poisson8x7", "poisson30x1"]
 
 def run(c):
     th = c.thorough()
@@ -17,7 +17,8 @@ def run(c):
                    "no out-of-bounds / use-after-free / leak / UB": "O (ASan+UBSan+LSan exit status)",
                    "failure = exception or truthfully reported residual": "V (outcome class + long-double residual)"}
     c.assumptions = ["operator new / new[] replacement reaches every allocation amgcl makes (it uses new[] and std containers)",
-                     "sanitizers see single-threaded runs (OMP_NUM_THREADS=1)"]
+                     "sanitizers see single-threaded runs (OMP_NUM_THREADS=1)",
+                     "stack mode: amgcl called from the master thread of a 2-thread region with OMP_NUM_THREADS=3 (team of one inside the library); 192 KB of stack pre-filled"]
     c.tlc_model("RsConnectModel", constants={"N": 4 if th else 3})
     snap = c.tlc_model("RsConnectModel", constants={"N": 2, "Fixed": "FALSE"})
     if not snap["violated"]:
@@ -50,3 +51,8 @@ def run(c):
     for ln in res["lines"][5:8]:
         c.sample(ln, limit=8)
     c.judge(res, "outcome depends on prior heap contents", sigfn=sig, stage="fill")
+    # stack contents + a team smaller than omp_get_max_threads(): the library called from inside the
+    # caller's parallel region, 3 threads configured, after four different stack fills
+    t = c.record(plain, ["stack", "all"], out=c.path("stack.ndjson"), timeout=1800, env={"OMP_NUM_THREADS": 3})
+    res = c.tlc_trace("C10Trace", t, label="stack-fills/nested-team", chunk=12000)
+    c.judge(res, "outcome depends on prior stack contents", sigfn=sig, stage="stack")
